@@ -43,7 +43,12 @@ func writeEvidence(prop string, o *checkOpts, results []*exec.HarnessResult, con
 	var samples []interface{}
 	obligations, discharged, queries, distinct, paths := 0, 0, 0, 0, 0
 	solverTime := 0.0
-	exhaustive := !loadFailed
+	exhaustive := !loadFailed && len(staleHarness) == 0
+	var stale []string
+	for f, why := range staleHarness {
+		stale = append(stale, filepath.Base(f)+": "+why)
+	}
+	sort.Strings(stale)
 	for _, r := range results {
 		b := map[string]string{"unwind": fmt.Sprint(r.Cfg.Unwind), "max_steps": fmt.Sprint(r.Cfg.MaxSteps)}
 		for k, v := range r.Cfg.Opts {
@@ -157,6 +162,7 @@ func writeEvidence(prop string, o *checkOpts, results []*exec.HarnessResult, con
 			"counterexamples":                     viol,
 			"known_findings_matched":              knownHits,
 			"load_failed":                         loadFailed,
+			"stale_harness_files":                 stale,
 			"checker_cmd":                         "/verif/bin/sv check " + prop + " --tier " + o.tier,
 		},
 	}
